@@ -169,6 +169,8 @@ def gen_jobs(tier, seed):
             a1, a2 = rng.sample([n_ for n_ in tynodes if w["elements"][n_ - 1]["k"] != "metaof"], 2)
             methods = [worlds.mkmethod("m1", 1, [1])]
             methods[0]["pos"] = [{"k": "union", "args": [worlds.cls(a1), worlds.cls(a2)]}]
+            if q % 2 == 1:
+                methods[0]["pos"][0]["litarm"] = rng.randint(1, 3)
             methods[0]["bare"] = False
             w["methods"] = methods
             calls = [c for c in calls if not c["pos"][0].get("any") and c["pos"][0]["c"] != 1]
